@@ -134,6 +134,10 @@ class DBusMessage :
 
             DBusMessage._nextSerial += 1
 
+            if DBusMessage._nextSerial > 0xFFFFFFFF:
+                # serials are non-zero unsigned 32-bit numbers: start over
+                DBusMessage._nextSerial = 1
+
         binHeader = b''.join(marshal.marshal(
             _headerFormat,
             [
